@@ -8,7 +8,7 @@ from harness import Test, Sweep
 
 RULE = ("generators of C01, C02, C03, C04, C05, C06, C10, C11, C13, C16, C17 (operand lengths 0..20 words, message lengths around every block boundary, all levels/alphabets/counts/thresholds in the documented domains) "
         "executed with exact-size heap buffers, exact _keep()/_deep() states and stacks, exact-size blobs (BLOB_PAGE_SIZE 1 under BEE2_VERIF) on msan (clang MemorySanitizer), w32 (32-bit words, ASan) and asan (64-bit, ASan + bounds, asserts on); "
-        "oracle: no sanitizer report, no 'Assertion in', no signal, in addition to each generator's own semantic oracle; non-trivial by the rule of the home property")
+        "plus the DER entry points on every octet string of length <= 3 and every fuzz target of C08 on its structure-aware inputs, each in an exact-size block; oracle: no sanitizer report, no 'Assertion in', no signal, in addition to each generator's own semantic oracle; non-trivial by the rule of the home property")
 LEVEL = "exploration"
 ASSUMPTIONS = ["red zones of ASan and definedness tracking of MSan are the oracle; an out-of-bounds access that lands inside another live allocation is not seen",
                "full UBSan is not used: it fires on the unchanged tree for constructs no listed property covers (unaligned word* casts, u16 promotion overflow, NULL + 0)"]
